@@ -1,5 +1,6 @@
 import NucsProofs.Engine.C08Local
 import NucsProofs.Engine.StackBound
+import NucsProofs.Propagators.PortAlldiff
 /-!
   C16 — no in-contract input makes the engine read or write outside its arrays.
 
@@ -13,11 +14,18 @@ import NucsProofs.Engine.StackBound
   * `C16_branch_index` : the shared-domain index a variable heuristic hands to the value heuristic
     is an existing, unbound domain (never the −1 of the repaired max_regret);
   * `C16_stack` : the number of stack levels in use never exceeds the configured height (C19).
-  PARTIAL: for alldifferent the registered model is the ported algorithm behind a proved result
-  checker, so `Safe .alldifferent` says nothing about the port's own array accesses; for the ported
-  alldifferent and gcc "never `oob` in contract" is `C16_port_full`, stated and validated by the
-  correspondence (raw port outcome compared with IndexError / negative-index detection on the
-  implementation on every call), not proved.
+  * `C16_port_alldifferent` (NucsProofs/Propagators/PortAlldiff*.lean, 3 kLoC): for alldifferent the
+    registered model is the ported algorithm behind a proved result checker, so `Safe .alldifferent`
+    says nothing about the port's own array accesses; this theorem does: on every box of non-empty
+    domains the RAW PORT (every read and write of `bounds`, `t`, `d`, `h`, `ranks`, the sorted index
+    arrays through checked accessors; every `while` with a budget) returns a result — never `oob`,
+    never `fuel`.  The invariants are the pointer-forest shape of `t`/`h` under path compression,
+    `d[root] ∈ [1, capacity]`, the untouched sentinels, strictly increasing `bounds`, ranks in 1..nb.
+    (`alldifferent_empty_domain_fuel`: with an EMPTY domain the code can loop forever — the engine
+    never passes one: `Inv`.)
+  PARTIAL: for the ported gcc "never `oob` in contract" is the second conjunct of `C16_port_full`,
+  stated and validated by the correspondence (raw port outcome compared with IndexError /
+  negative-index detection on the implementation on every call), not proved.
 -/
 namespace Nucs
 
@@ -51,7 +59,13 @@ theorem C16_stack (P : Problem) (cfg : Config) (hbc : cfg.cons = .bc) (fuel : Na
     (h : solveOne P cfg fuel s = .ok (r, s')) : s'.below.length + 1 ≤ cfg.height :=
   solveOne_height P cfg hbc fuel s r s' hh h
 
-/-- stated, not proved: the ported Hall-interval algorithms never index out of bounds in contract -/
+/-- the first conjunct of `C16_port_full` below, proved -/
+theorem C16_port_full_alldifferent_proved :
+    ∀ ps B, Contract .alldifferent ps B → B.Nonempty → alldifferent ps B ≠ .error .oob :=
+  C16_port_full_alldifferent
+
+/-- the ported Hall-interval algorithms never index out of bounds in contract: first conjunct proved
+    (`C16_port_full_alldifferent`), second (gcc) stated, validated, not proved -/
 def C16_port_full : Prop :=
   (∀ ps B, Contract .alldifferent ps B → B.Nonempty → alldifferent ps B ≠ .error .oob) ∧
   (∀ ps B, Contract .gcc ps B → B.Nonempty → (∀ j, j < (ps.length - 1) / 2 → 1 ≤ getI ps (1 + (ps.length - 1) / 2 + j)) →
